@@ -109,10 +109,25 @@ PROPS["C13"] = {
     "technique": "bounded model checking (Kani/CBMC) of the real atomic methods under a symbolic interference model through the sux_verif scheduling hook",
 }
 
+PROPS["C01"] = {
+    "engine": "kani", "module": "c01", "feature": "c01", "jobs": 8,
+    "functions": ["Rank9::new", "BlockCounters::{rel,set_rel}", "Rank9::rank_unchecked", "RankSmall::<2,9|1,9|1,10|1,11|3,13>::new / rank_unchecked",
+                  "Block32Counters::{all_rel,rel,set_rel}", "BitVec::rank_hinted", "Rank::rank", "RankZero::rank_zero",
+                  "NumBits::{num_ones,num_zeros}", "BitCount", "BitLength", "Index", "AddNumBits"],
+    "bounds": "backing array of N fully symbolic words, len concrete per harness (64N, 64N-1, 64(N-1)+32, 64(N-1)+1 variants), p a fully "
+              "symbolic usize; quick: Rank9 N in {1,8,9}, RankSmall<2,9>/<1,9> N=9, <1,10> N=17, <1,11> N=5; thorough: two blocks plus a "
+              "word for every variant (N up to 65), RankSmall<3,13> with structured contents",
+    "outside": "vectors beyond 2^32 bits (second entry of upper_counts); symbolic lengths; rank structures underneath selection wrappers "
+               "(their constructors are out of reach, C02; the forwarding is macro-generated)",
+    "assumptions": ["usize::count_ones is the only trusted primitive of the word-level specification ones_before"],
+    "level_text": "Bounded model checking of constructor + query of every rank structure against the word-level prefix-popcount "
+                  "specification, for every content of the backing words (saturated and empty blocks, stale tail bits) and every position.",
+    "level_note": "Bounds: N <= 65 words, concrete lengths; trusted: Kani/CBMC/CaDiCaL, usize::count_ones.",
+}
+
 # Properties not (yet) claimed, with the reason. Entries for properties that
 # gain a check are ignored by tools/gen_manifest.py.
 NOT_APPLICABLE = {
-    "C01": "check not built yet in this revision (planned: DESIGN.md §2 C01)",
     "C02": "check not built yet in this revision (planned, partial: DESIGN.md §2 C02)",
     "C03": "check not built yet in this revision (planned: DESIGN.md §2 C03)",
     "C04": "check not built yet in this revision (planned: DESIGN.md §2 C04)",
